@@ -18,7 +18,7 @@ KINDS = ["produce", "produce", "produce_raise", "consume", "subchannel"]
 
 
 def canon(x):
-    return repr(x)
+    return CC.canon_item(x)
 
 
 def monitor(sub, c, o, out, ex):
@@ -36,7 +36,7 @@ def monitor(sub, c, o, out, ex):
                 sub.fail("loss:callback-items-not-a-prefix-of-sent", ex)
             if nend != 1 or not (got[-1] == END or got[-1] == list(END)):
                 sub.fail("loss:callback-endmarker-not-exactly-once-at-end", ex)
-            if o.get("end") in (None, "Timeout"):
+            if mode != "callback_dropped" and o.get("end") in (None, "Timeout"):
                 sub.fail("loss:waitclose-blocked-forever", ex)
             return
         if second is not None:
@@ -68,7 +68,7 @@ def monitor(sub, c, o, out, ex):
         if isinstance(s, (tuple, list)) and s and s[0] == "EXC":
             if s[1] not in ("EOFError",):
                 sub.fail("loss:receive-not-ended-by-EOFError:consume:" + str(s[1]), ex)
-        elif s is not None and list(s) != ["summary", c["items"]]:
+        elif s is not None and not (len(s) == 2 and s[0] == "summary" and list(map(canon, s[1])) == list(map(canon, c["items"]))):
             sub.fail("loss:corrupt-item-delivered", ex)
         if o.get("end") in (None, "TimeoutError"):
             sub.fail("loss:waitclose-blocked-forever", ex)
@@ -128,13 +128,13 @@ def main(tier, seed, replay=None):
             ck.case((repr(prog), k, io_kind, tuple(out["schedule"][:60])), nontrivial=True)
             ck.count("cut_" + io_kind)
             if nruns % 211 == 1:
-                ck.sample({**exb, "obs": {str(a): b for a, b in out["obs"].items()}, "final": out["final"]})
+                ck.sample({**exb, "obs": CC.compact({str(a): b for a, b in out["obs"].items()}), "final": out["final"]})
             if out["result"] != "stop":
                 ck.broke("correspondence", "pair-run-" + str(out["result"]), {**exb, "thread_errors": out["thread_errors"]})
                 continue
             for i, c in enumerate(prog):
                 o = out["obs"].get(i)
-                ex = {**exb, "index": i, "obs": {str(a): b for a, b in out["obs"].items()}, "final": out["final"]}
+                ex = {**exb, "index": i, "obs": CC.compact({str(a): b for a, b in out["obs"].items()}), "final": out["final"]}
                 if o is None:
                     continue
                 if "id" not in o:
